@@ -304,7 +304,7 @@ def spec_sizes(spec):
             out |= {float(v) for v in d.values()}
         else:
             out.add(float(d))
-    for e in (spec.get('events') or []) + (spec.get('added_events') or []):
+    for e in (spec.get('events') or []) + (spec.get('added_events') or []) + (spec.get('late_events') or []):
         if 'size' in e:
             out.add(float(e['size']))
         for d in (e.get('pop_sizes') or {}).values():
